@@ -25,6 +25,7 @@ type Prog struct {
 	sites      map[*ssa.Function][]ssa.CallInstruction // static call sites of module functions (built lazily)
 	inlineMemo map[calleeKey][]uint32 // per top-level pathMasks call: masks a helper's success returns may carry
 	inlining map[*ssa.Function]bool // helpers currently being looked into by the path engine (recursion guard)
+	merged     map[string]bool // reference functions _x that now live inside their wrapper x
 	Inlined    []inlineNote // helpers unknown to the reference tree that were inlined (or kept, with the reason)
 	InlineFail string
 	Dir   string
@@ -86,6 +87,7 @@ func loadProg(dir, tags string, needCG bool) (*Prog, error) {
 		return nil, err
 	}
 	// functions that are not in the reference tree are inlined into their callers (inline.go)
+	computeAliases(pkgs)
 	var inlNotes []inlineNote
 	inlFail := ""
 	if os.Getenv("BBL_NO_INLINE") == "" {
@@ -206,6 +208,30 @@ func (p *Prog) Pkg(rel string) *ssa.Package {
 // Func resolves a function or method by module-relative package path, optional
 // receiver type name and name. Returns nil if not found.
 func (p *Prog) Func(rel, recv, name string) *ssa.Function {
+	if f := p.func0(rel, recv, name); f != nil {
+		return f
+	}
+	key := modPath + "/" + rel + "." + name
+	if recv != "" {
+		key = modPath + "/" + rel + "." + recv + "." + name
+	}
+	if nk, ok := fnAliasRev[key]; ok {
+		return p.func0(rel, recv, nk[strings.LastIndex(nk, ".")+1:])
+	}
+	// a memoised predicate's compute function (_x) merged into its wrapper (x)
+	if strings.HasPrefix(name, "_") && referenceFuncs[key] {
+		if f := p.func0(rel, recv, name[1:]); f != nil {
+			if p.merged == nil {
+				p.merged = map[string]bool{}
+			}
+			p.merged[key] = true
+			return f
+		}
+	}
+	return nil
+}
+
+func (p *Prog) func0(rel, recv, name string) *ssa.Function {
 	sp := p.Pkg(rel)
 	if sp == nil {
 		return nil
@@ -265,6 +291,13 @@ func (p *Prog) Field(rel, typ, field string) *types.Var {
 	for i := 0; i < st.NumFields(); i++ {
 		if st.Field(i).Name() == field {
 			return st.Field(i)
+		}
+	}
+	if nn, ok := fieldAliasRev[modPath+"/"+rel+"."+typ+"."+field]; ok {
+		for i := 0; i < st.NumFields(); i++ {
+			if st.Field(i).Name() == nn {
+				return st.Field(i)
+			}
 		}
 	}
 	return nil
